@@ -28,6 +28,7 @@ func init() {
 		ruleCDC5(w, r)
 		ruleCDC6(w, r)  // a torn first frame is repaired, not a reason to refuse start-up
 		ruleORD2c(w, r) // the older snapshot is retired only once the compacted log is in place
+		ruleORD10(w, r) // a crash inside a precision change must leave an openable directory
 		ruleORD4(w, r)  // a refused compaction must not end a running snapshot's shadow mode
 		ruleORD9(w, r)  // a crash right after a snapshot must not lose writes that were being applied while it was taken
 	})
@@ -66,6 +67,7 @@ func init() {
 		ruleORD4(w, r)  // … nor may the shadow-buffered writes be dropped
 		ruleORD9(w, r)  // … nor a write that was journaled before snapshot mode and applied after the capture
 		ruleCDC10(w, r) // edge weights and ids survive the journal unchanged
+		ruleCDC9(w, r)  // a compaction re-emits every edge and every key-value pair
 		ruleCDC11(w, r) // index configuration durations survive the journal unchanged
 		ruleSIBnumtypes(w, r)
 	})
